@@ -334,7 +334,7 @@ def _handle_trace(ck, r, first):
                         json.dumps(next((e for e in reversed(evs[:prefix]) if "ord" in e), {}))), rp)
 
 
-def _handle_nonrep(ck, r):
+def _handle_nonrep(ck, r, agg):
     name = "trace-nonrep-%d.ndjson" % r["i"]
     tpath = r["path"]
     if r["rc"] != 0:
@@ -367,19 +367,24 @@ def _handle_nonrep(ck, r):
     if missing:
         raise FrameworkError("vacuity gate: non-representable trace %s never exercised %s" % (name, missing))
     ck.add("traces_validated_against_impl", st["executions"])
-    by = {}
+    # findings are verdicts of the trace spec, one class per contract clause; the same class in
+    # several traces is one violation (agg: class -> [count, first finding, replay file])
     for f in r["findings"]:
-        by.setdefault(f["finding"], []).append(f)
-    for cls in sorted(by):
-        fs = by[cls]
-        ck.add("nonrep_findings_" + cls, len(fs))
-        rp = ck.replay_file(name)
-        shutil.copyfile(tpath, rp)
-        f = fs[0]
+        if f["finding"] not in agg:
+            rp = ck.replay_file(name)
+            shutil.copyfile(tpath, rp)
+            agg[f["finding"]] = [0, f, rp]
+        agg[f["finding"]][0] += 1
+
+
+def _report_nonrep(ck, agg):
+    for cls in sorted(agg):
+        count, f, rp = agg[cls]
+        ck.add("nonrep_findings_" + cls, count)
         ck.violation("nonrep:" + cls,
-                     "%d sample(r) calls in a history with non-representable weights break the contract clause "
-                     "'%s'; first at trace line %d: %s with elements (fixed-point weights, 0 = exactly zero) %s"
-                     % (len(fs), cls, f["line"], json.dumps(f["sample"]), json.dumps(f["listing"])), rp)
+                     "%d sample(r) calls in histories with non-representable weights break the contract clause "
+                     "'%s'; first at line %d of the replay file: %s with elements (fixed-point weights, 0 = exactly "
+                     "zero) %s" % (count, cls, f["line"], json.dumps(f["sample"]), json.dumps(f["listing"])), rp)
 
 
 GATE = ["add_new_head", "add_no_new_head", "update", "clear_nonempty", "remove_single", "remove_last",
@@ -462,8 +467,10 @@ def run(tier):
         for i, f in enumerate(tracef):
             _handle_trace(ck, f.result(), i == 0)
         # 4. histories with non-representable weights
+        agg = {}
         for f in nonrepf:
-            _handle_nonrep(ck, f.result())
+            _handle_nonrep(ck, f.result(), agg)
+        _report_nonrep(ck, agg)
     return ck.finish()
 
 
